@@ -34,20 +34,23 @@ CLAIMED = {
    note="Trusted: Lean kernel (+propext, Classical.choice, Quot.sound); the hand-written lexer/parser/JSON-text models correspond to the "
         "code as far as the sampled `parse` stream shows; Spec/Abnf.lean as the transcription of the published ABNF (token level: lexical productions are the lexer's); serde_json's JSON grammar is modelled, not verified.",
    design="DESIGN.md §7 C03, Appendix A",
-   technique="Lean 4 theorems (parser model = published ABNF modulo three counted deviations) + model/implementation correspondence check + independent ABNF recogniser"),
+   technique="Lean 4 theorems (parser model = published ABNF modulo three counted deviations; lexer dispatch table regenerated from lexer.rs on every run, compared up to order and grouping) + model/implementation correspondence check + independent ABNF recogniser"),
  "C10": dict(
    text="Machine-checked theorems (Lean 4) on the model of float_eq / PartialEq / Ord / Variable::compare: == is symmetric and (on "
         "well-formed values) reflexive for all values incl. nested containers, != is its negation, values of different types are never "
         "equal, == is exactly the inductively defined deep structural equality, ordering operators are defined iff both operands are "
         "numbers and agree with the order of the operands' rational values, trichotomy and (<= iff < or ==) for well-separated pairs. "
-        "Doubles are modelled exactly (rational arithmetic + one RNE rounding per operation). Tied to the code by the `eval` stream on "
+        "Doubles are modelled exactly (rational arithmetic + one RNE rounding per operation). float_eq, PartialEq and Ord for Variable and the gate of "
+        "Variable::compare are re-translated from variable.rs on every run and proved equal to the model's (C10_translated_equality, C10_translated_compare_gate). Tied to the code by the `eval` stream on "
         "value pairs (all type pairings, neighbouring doubles, extremes) together with implementation-only oracles for each law.",
    note="Trusted: Lean kernel; model F64 = IEEE-754 binary64 (validated by the streams, not proved against hardware); tolerant equality is the code's documented behaviour and is judged against exact arithmetic outside a 2^-40 band around the 2^-52 threshold.",
    design="DESIGN.md §7 C10",
-   technique="Lean 4 theorems over a hand-written model (exact soft-float) + model/implementation correspondence + algebraic oracles on the implementation"),
+   technique="Lean 4 theorems over a model whose equality / ordering / comparison-gate functions are regenerated from variable.rs on every run and proved equal to the hand model (exact soft-float) + model/implementation correspondence + algebraic oracles on the implementation"),
  "C04": dict(
-   text="Machine-checked theorems (Lean 4): the binding-power table and every call-site power are re-extracted from lexer.rs/parser.rs on each "
-        "run and proved equal to the documented ones, as is the public AST / token / comparator vocabulary (C04_ast_vocabulary); the parse of every sentence is `ast` of the unique `Legal` tree spelling its tokens "
+   text="Machine-checked theorems (Lean 4): the WHOLE of parser.rs is re-translated into Lean on every run (tools/rs2lean_parser.py -> "
+        "Generated/ParserCode.lean: every Parser method, loops, state, binding powers read off the source) and the hand model is proved to compute the same "
+        "tree and the same error offset for every string (C04_translated_parser, Lemmas/ParserEquiv, 1000 lines); the binding-power table is re-extracted from lexer.rs on each "
+        "run and proved equal to the documented one, as is the public AST / token / comparator vocabulary (C04_ast_vocabulary); the parse of every sentence is `ast` of the unique `Legal` tree spelling its tokens "
         "(T1 + T2: unambiguity), every operand binds tighter than its operator (left associativity), a projection's right-hand side stops "
         "at a token binding below 10, and adding the implied parentheses yields a legal tree with the same `ast` that parses to itself. "
         "The model is tied to the code by the `parse` stream comparing full tree shape on operator-dense sentences (all ordered pairs/triples "
@@ -55,7 +58,7 @@ CLAIMED = {
         "text parse to the same tree and give the same search result. The one deviation of the code from the stated rule (F16) is a known finding.",
    note="Trusted: Lean kernel; translate.py's regex extraction; the parser model's correspondence as sampled; `Legal` mirrors the code at F16 (dotted multi-select list ends the right-hand side), which is reported as a known finding rather than proved conformant.",
    design="DESIGN.md §7 C04, Appendix A",
-   technique="Lean 4 theorems (unambiguity, paren-invariance, regenerated precedence tables) + correspondence + implementation-only parenthesisation oracle"),
+   technique="Lean 4 theorems (unambiguity, paren-invariance) about a parser model proved equal to the parser regenerated from parser.rs on every run (translator) + regenerated precedence table + correspondence + implementation-only parenthesisation oracle"),
  "C13": dict(
    text="Machine-checked theorem (Lean 4): for every history of compile/clone/drop/search operations over any handles, expressions and documents "
         "(incl. failing ones) the outputs equal those of a stateless specification that recompiles the handle's source text for every search "
@@ -111,7 +114,8 @@ CLAIMED = {
         "offending position (naming declared and actual type) otherwise, and succeeds iff every argument satisfies its parameter type; "
         "validity depends only on the argument's type class, which lifts the finite class-level decision table to all values; after a "
         "successful validation no builtin reaches an unreachable!() arm and every result has the declared result type; Signature::validate_arity "
-        "is re-translated from functions.rs on every run and proved equal to the model's arity check (C06_translated_validate_arity); the "
+        "and the whole validator (ArgumentType::is_valid, Signature::validate / validate_arg, the type-name Display impls) are re-translated from functions.rs on every run "
+        "and proved equal to the model's (C06_translated_validate_arity, C06_translated_validator, incl. that the checked inputs[k] never faults after the arity check); the "
         "ArgumentType / JmespathType / Variable vocabularies are re-extracted too (C06_type_vocabulary). The class-level "
         "decision table (26 builtins x counts 0..declared+2 x 10 classes per position; ~109k cells, exhaustive in the thorough tier, all "
         "cells up to 3 arguments in the quick tier) is run against the code, the model and an independent Python table of the specification.",
